@@ -7,6 +7,7 @@ import (
 	"math/rand"
 	"sort"
 	"sync"
+	"sync/atomic"
 	"time"
 
 	"github.com/anishathalye/porcupine"
@@ -444,7 +445,7 @@ func c01Porcupine(r *hx.Run, w *W, ps *plans, rnd *rand.Rand, n int) {
 }
 
 func c01(r *hx.Run) {
-	r.Rule = "bursts: 1-4 keys x {2..64} identical concurrent requests x 1-3 epochs, the fetch held at the origin until the hook counter shows all other requests parked (1/4 released early), jitter at 4 hook points, judged by the origin in-flight monitor and per-epoch exactly-once accounting; directed: waiter held between wake-up and resumption while the entry expires and a new fetcher starts; porcupine: 8 staggered clients + a concurrent clock advancer, per-key linearizability. Non-trivial = burst with >=1 parked waiter; distinct = interleaving signature (hash of the (goroutine role, hook point) sequence) / directed outcome / porcupine partition with >=2 epochs."
+	r.Rule = "bursts: 1-4 keys x {2..64} identical concurrent requests x 1-3 epochs, the fetch held at the origin until the hook counter shows all other requests parked (1/4 released early), jitter at 4 hook points, judged by the origin in-flight monitor and per-epoch exactly-once accounting; directed: waiter held between wake-up and resumption while the entry expires and a new fetcher starts; failed fetches: the one contact of a burst hangs past the proxy timeout, resets the connection or sends half a body - no client request may reach the upstream twice; porcupine: 8 staggered clients + a concurrent clock advancer, per-key linearizability. Non-trivial = burst with >=1 parked waiter; distinct = interleaving signature (hash of the (goroutine role, hook point) sequence) / directed outcome / porcupine partition with >=2 epochs."
 	r.Assume = []string{"virtual clock through the cache.nowUnix hook", "no eviction: cache size 100000 >> keys (asserted by the eviction hook)", "-race build"}
 	rnd := rand.New(rand.NewSource(r.Seed))
 	w := newSimpleWorld(r, hx.SimpleCfg{CacheName: "c01"}, 1, true)
@@ -472,7 +473,60 @@ func c01(r *hx.Run) {
 		r.Inconclusive(fmt.Sprintf("%d evictions happened; the entry model assumes none", n))
 	}
 	r.Set("points_hit", w.Pts.Counts())
+	w.Pts.SetJitter(nil, 0)
+	c01FailedFetch(r, rnd, r.Pick(9, 600))
 	checkRaceLog(r)
+}
+
+// c01FailedFetch: the one fetch of a burst fails after the upstream has received it (it never answers
+// and the location's proxy timeout fires; it resets the connection; it sends half a body). Whatever the
+// clients are told, every request is either the one in flight or waits for it, so no single client
+// request ever reaches the upstream more than once, and while the failing contact is still open at the
+// origin no second contact of the same request appears next to it.
+func c01FailedFetch(r *hx.Run, rnd *rand.Rand, n int) {
+	w := newSimpleWorld(r, hx.SimpleCfg{CacheName: "c01f", HitForPass: "2s", Timeout: "300ms"}, 1, true)
+	defer w.Farm.Close()
+	for i := 0; i < n && !r.TooMany(); i++ {
+		kind := []string{"hang", "abort", "truncate"}[i%3]
+		uri := fmt.Sprintf("/c01f/%d/%d", r.Seed, i)
+		var contacts atomic.Int64
+		release := make(chan struct{})
+		w.Farm.SetScript(func(f *hx.Fetch) *hx.Reply {
+			first := contacts.Add(1) == 1
+			rep := replyOf(f, ans{Kind: "cacheable", T: 60})
+			if !first {
+				return rep
+			}
+			switch kind {
+			case "hang":
+				rep.Gate = release // not answered before the proxy timeout has long fired
+			case "abort":
+				rep = replyOf(f, ans{Kind: "abort"})
+			case "truncate":
+				rep = replyOf(f, ans{Kind: "truncate"})
+			}
+			return rep
+		})
+		nClients := 2 + rnd.Intn(6)
+		res := burst(w, nClients, hx.Req{Addr: w.Addr, Host: "c01.example", URI: uri, Timeout: 15 * time.Second})
+		close(release)
+		r.Eval(1)
+		r.Add("failed_fetch_bursts_"+kind, 1)
+		cs := map[string]interface{}{"uri": uri, "first_contact": kind, "clients": nClients}
+		bad := false
+		for _, x := range res {
+			fs := w.Farm.ByReqID(x.ReqID)
+			if len(fs) > 1 {
+				r.Violate("request_contacted_upstream_more_than_once", map[string]string{"first_contact": kind}, fmt.Sprintf("one client request reached the upstream %d times (the first contact failed after the upstream had received it)", len(fs)), map[string]interface{}{"results": briefs(res)}, cs)
+				bad = true
+				break
+			}
+		}
+		if !bad {
+			r.Distinct(fmt.Sprintf("failed_fetch %s n=%d", kind, nClients))
+		}
+		w.Clock.Advance(100)
+	}
 }
 
 func init() { register("C01", "exploration", c01) }
